@@ -86,12 +86,24 @@ def real_agent():
     return next(iter(app.target_agents.values()))
 
 
-def exact_one(agent, b, method: str, tau: float, rng: random.Random, patience: float = 20.0):
-    """Replay one behaviour; returns (None | (signature, what, detail), max relative velocity error, steps)."""
+def exact_one(agent, b, method: str, tau: float, rng: random.Random, patience: float = 20.0, variant: str = ""):
+    """Replay one behaviour; returns (None | (signature, what, detail), max relative velocity error, steps).
+
+    variant (same spec numbers must come out, the thrust history is the same):
+      "impulse"  a real scheduled ECI impulse with ZERO delta-v fires half a tick after the burn starts
+                 (another terminal event in the middle of the burn must not touch the thrust);
+      "split"    the burn is configured as two back-to-back burns [ts, m) + [m, te) of the same acceleration.
+    """
+    from resonaate.dynamics.integration_events.scheduled_impulse import ScheduledECIImpulse
     from resonaate.parallel.agent_propagation import PropagateRegistration, PropagateResult
     from resonaate.physics.time.stardate import ScenarioTime
     v0, g, a = b["law"]
     burn, dt = b["burn"], b["dt"]
+    parts = [(burn["ts"], burn["te"])]
+    if variant == "split":
+        mid = (burn["ts"] + burn["te"]) // 2
+        parts = [(burn["ts"], mid), (mid, burn["te"])]
+    imp_tick = burn["ts"] + 0.5
     emb = K.Embed(rng, tau, ALPHA)
     agent._dynamics = K.ExactLaw(g * ALPHA * emb.u, method=method)
     agent._time = ScenarioTime(0.0)
@@ -103,9 +115,11 @@ def exact_one(agent, b, method: str, tau: float, rng: random.Random, patience: f
     for k, call in enumerate(b["hist"]):
         lb, ub = call["times"]
         # Scenario.stepForward: the active burn is handled (appended) again at every step (spec action Deliver)
-        if burn["kind"] != "none" and burn["ts"] <= ub and burn["te"] > lb:
-            agent.appendPropagateEvent(emb.thrust_event(burn["kind"], a, burn["ts"] * tau, burn["te"] * tau,
-                                                        agent.simulation_id))
+        for p_ts, p_te in parts:
+            if burn["kind"] != "none" and p_ts <= ub and p_te > lb:
+                agent.appendPropagateEvent(emb.thrust_event(burn["kind"], a, p_ts * tau, p_te * tau, agent.simulation_id))
+        if variant == "impulse" and lb < imp_tick <= ub:       # an impulse is handled once, in the step that contains it
+            agent.appendPropagateEvent(ScheduledECIImpulse(ScenarioTime(imp_tick * tau), np.zeros(3), agent.simulation_id))
         reg = PropagateRegistration(agent)
         try:
             with guard(patience):
@@ -147,9 +161,11 @@ def exact_one(agent, b, method: str, tau: float, rng: random.Random, patience: f
     return None, worst, len(b["hist"])
 
 
-def exact_replay(ctx: Ctx, behs, rng: random.Random, patience: float = 20.0, stop_at_first: bool = False) -> dict:
+def exact_replay(ctx: Ctx, behs, rng: random.Random, patience: float = 20.0, stop_at_first: bool = False,
+                 variant: str = "") -> dict:
     agent = real_agent()
     stats = {"behaviours": 0, "steps": 0, "violations": 0, "max_rel_err": 0.0, "by_signature": {}}
+    pre = f"exact-law:{variant}:" if variant else ""
     hangs = 0
     for i, b in enumerate(behs):
         methods = ("RK45", "DOP853") if not ctx.quick else (("RK45", "DOP853")[i % 2],)
@@ -160,7 +176,9 @@ def exact_replay(ctx: Ctx, behs, rng: random.Random, patience: float = 20.0, sto
             tau = TAUS[(i // 2) % len(TAUS)]
             sub_seed = rng.getrandbits(32)
             try:
-                bad, worst, steps = exact_one(agent, b, method, tau, random.Random(sub_seed), patience)
+                bad, worst, steps = exact_one(agent, b, method, tau, random.Random(sub_seed), patience, variant)
+                if bad and pre:
+                    bad = (bad[0].replace("exact-law:", pre), f"[{variant} variant] " + bad[1], bad[2])
             except tlc.MachineryError:
                 raise
             except Exception as ex:  # noqa: BLE001  - the real code raised on a legal input
@@ -169,7 +187,7 @@ def exact_replay(ctx: Ctx, behs, rng: random.Random, patience: float = 20.0, sto
             stats["behaviours"] += 1
             stats["steps"] += steps
             stats["max_rel_err"] = max(stats["max_rel_err"], worst if bad is None else 0.0)
-            key = ("exact", tuple(b["law"]), b["dt"], b["nsteps"], b["burn"]["ts"], b["burn"]["te"], b["burn"]["kind"], method)
+            key = ("exact" + variant, tuple(b["law"]), b["dt"], b["nsteps"], b["burn"]["ts"], b["burn"]["te"], b["burn"]["kind"], method)
             ctx.case(key, nontrivial=b["burn"]["kind"] != "none",
                      sample={"part": "exact", "law": b["law"], "dt": b["dt"], "nsteps": b["nsteps"], "burn": b["burn"],
                              "method": method, "tau_s": tau} if i % 701 == 3 else None)
@@ -179,7 +197,8 @@ def exact_replay(ctx: Ctx, behs, rng: random.Random, patience: float = 20.0, sto
                 stats["by_signature"][sig] = stats["by_signature"].get(sig, 0) + 1
                 hangs += "terminate" in sig
                 ctx.violation(sig, "(a) exact law through the real propagate/ScheduledFiniteThrust/prune: " + what,
-                              {"part": "exact", "behaviour": b, "method": method, "tau_s": tau, "seed": sub_seed, **detail})
+                              {"part": "exact", "variant": variant, "behaviour": b, "method": method, "tau_s": tau, "seed": sub_seed,
+                               **detail})
     ctx.traces_validated += stats["behaviours"]
     return stats
 
@@ -431,6 +450,11 @@ def run(ctx: Ctx):
     ctx.extra["action_coverage"] = cov
     ctx.extra["behaviours"] = len(behs)
     ctx.extra["exact"] = exact_replay(ctx, behs, rng)
+    # the same behaviours with a companion event in the agent's queue (the spec's numbers stay the oracle): every 3rd
+    # behaviour whose burn lasts at least two ticks
+    long_burns = [b for b in behs if b["burn"]["kind"] != "none" and b["burn"]["te"] - b["burn"]["ts"] >= 2]
+    ctx.extra["exact_zero_impulse_mid_burn"] = exact_replay(ctx, long_burns[::3 if ctx.quick else 2], rng, variant="impulse")
+    ctx.extra["exact_back_to_back_burns"] = exact_replay(ctx, long_burns[1::3 if ctx.quick else 2], rng, variant="split")
     # burns that start at the scenario start itself (tick 0): a handful, short patience - on a tree where the restart
     # loop cannot leave scenario time 0 every one of them would hang
     _, zero = K.run_spec(ctx, "zero", "Kinematics.tla Mode=steps, burns starting at scenario time 0", invs=INV15, Horizon=6,
@@ -447,7 +471,7 @@ def replay(ctx: Ctx, rp: dict):
         return run(ctx)
     agent = real_agent()
     b = r["behaviour"]
-    bad, _, _ = exact_one(agent, b, r["method"], r["tau_s"], random.Random(r["seed"]))
+    bad, _, _ = exact_one(agent, b, r["method"], r["tau_s"], random.Random(r["seed"]), variant=r.get("variant", ""))
     ctx.case(("replay", str(b["burn"]), b["dt"]))
     ctx.case(("replay2", r["method"]))
     if bad:
